@@ -731,8 +731,14 @@ fn atoms(full: bool) -> Vec<Ex> {
         (true, 31),
         (true, 32),
         (true, 33),
-        (false, 127),
-        (false, 128),
+        (false, 63),
+        (true, 64),
+        (false, 65),
+        (true, 127),
+        (true, 128),
+        (false, 129),
+        (true, 200),
+        (false, 4294967040),
         (true, 2147483647),
         (true, 2147483648),
         (true, 4294967295),
